@@ -7,6 +7,9 @@ mod config;
 mod engine;
 mod merge;
 mod mget;
+mod route;
+mod sim;
+mod snap;
 
 pub fn arg(
     args: &[String],
@@ -25,6 +28,7 @@ fn main() {
     let rc = match mode.as_str() {
         "config" => config::run(&cases, &out, &scratch),
         "codec" => codec::run(&cases, &out, &scratch),
+        "route" => route::run(&cases, &out, &scratch),
         "merge" => merge::run(&cases, &out, &scratch),
         "mget" => mget::run(&cases, &out, &scratch, &arg(&args, "--sm").unwrap_or_else(|| "file".into())),
         _ => {
